@@ -87,6 +87,15 @@ func driveC19(a *args, s *vt.Sink) error {
 			return err
 		}
 	}
+	if a.replay == "" || strings.Contains(a.replay, `"srcpermedia"`) {
+		// (not one of the model's cases: sources that differ from media to media)
+		if err := c19srcPerMedia(s); err != nil {
+			return err
+		}
+		if a.replay != "" {
+			return nil
+		}
+	}
 	var keep, rest []c19job
 	for i, l := range lines {
 		var c c19case
@@ -769,6 +778,117 @@ func c19dgramServer(c *c19case, js string, s *vt.Sink, seed int64) error {
 	})
 	tr.Emit("dgram", "side", c.Side, "src", actual, "anyPort", c.AnyPort, "firstSeen", c.FirstSeen,
 		"delivered", delivered, "stats", stats, "proto", c.Proto, "asked", c.Src, "nsrc", len(socks))
+	tr.Emit("end")
+	return nil
+}
+
+// ---- per-media sources, client side -----------------------------------------------------
+
+// c19srcPerMedia: a scripted server announces a DIFFERENT source= for each of its two medias
+// (127.0.0.1 for the first, 127.0.1.2 for the second, same server ports). A real client sets
+// both up over UDP and plays. Valid RTP for the second media then arrives from the address
+// negotiated for the FIRST media (must be ignored) and from its own (must be delivered).
+// Events: two dgram events (side client), as for the other datagram cases.
+func c19srcPerMedia(s *vt.Sink) error {
+	tr, fail := c19begin(s, "c19/dgram", `{"kind":"srcpermedia"}`)
+	defer tr.End()
+	defer func() {
+		if p := recover(); p != nil {
+			tr.Emit("panic", "why", fmt.Sprint(p))
+		}
+	}()
+	b := &c12beh{Cfg: c12cfg{Mode: "play", Proto: "udp"}, Steps: c12steps("play")}
+	srv, err := c12newServer(b)
+	if err != nil {
+		return err
+	}
+	defer srv.close()
+	srv.silent = true
+	const other = "127.0.1.2"
+	srv.sourceOf = func(track string) string {
+		if track == "1" {
+			return other
+		}
+		return "127.0.0.1"
+	}
+	// the second media's own source: the same port number on the other address
+	sport := srv.udp[0].LocalAddr().(*net.UDPAddr).Port
+	own, err := c19listen(other, sport)
+	if err != nil {
+		fail("own-source", err)
+		return nil
+	}
+	defer own.Close()
+
+	var cports [][2]int
+	var mu sync.Mutex
+	proto := gortsplib.ProtocolUDP
+	c := &gortsplib.Client{Protocol: &proto, ReadTimeout: 5 * time.Second, WriteTimeout: 5 * time.Second,
+		OnRequest: func(req *base.Request) {
+			if req.Method == base.Setup {
+				var th headers.Transport
+				if th.Unmarshal(req.Header["Transport"]) == nil && th.ClientPorts != nil {
+					mu.Lock()
+					cports = append(cports, *th.ClientPorts)
+					mu.Unlock()
+				}
+			}
+		}}
+	c.OnPacketsLost = func(uint64) {}
+	c.OnDecodeError = func(error) {}
+	u, err := base.ParseURL("rtsp://" + srv.addr + "/stream")
+	if err != nil {
+		return err
+	}
+	c.Scheme, c.Host = u.Scheme, u.Host
+	if err = c.Start(); err != nil {
+		return err
+	}
+	defer c.Close()
+	desc, _, err := c.Describe(u)
+	if err != nil {
+		fail("describe", err)
+		return nil
+	}
+	if err = c.SetupAll(desc.BaseURL, desc.Medias); err != nil {
+		fail("setup", err)
+		return nil
+	}
+	seen := &c19seen{}
+	c.OnPacketRTPAny(seen.onRTP)
+	if _, err = c.Play(nil); err != nil {
+		fail("play", err)
+		return nil
+	}
+	mu.Lock()
+	ports := append([][2]int(nil), cports...)
+	mu.Unlock()
+	if len(ports) < 2 {
+		fail("reader", fmt.Errorf("%d client_port pairs seen in the SETUP requests", len(ports)))
+		return nil
+	}
+	dst := ports[1][0] // RTP port of the second media
+	send := func(sock *net.UDPConn, id int) error {
+		return c19send(sock, c19marshal(tr, c19rtpPkt(97, uint16(500+id), 0x19AB0000+uint32(id), id)), "127.0.0.1", dst)
+	}
+	// from the first media's address (the scripted server's own socket): not negotiated for this media
+	if err := send(srv.udp[0], 1); err != nil {
+		fail("send", err)
+		return nil
+	}
+	delivered := false
+	c19poll(c19window, func() bool { delivered = seen.has("rtp", 1); return delivered })
+	tr.Emit("dgram", "side", "client", "src", "ip", "anyPort", false, "firstSeen", false,
+		"delivered", delivered, "stats", delivered, "proto", "rtp", "asked", "ip", "nsrc", 1)
+	// from its own negotiated address
+	if err := send(own, 2); err != nil {
+		fail("send", err)
+		return nil
+	}
+	delivered = false
+	c19poll(time.Second, func() bool { delivered = seen.has("rtp", 2); return delivered })
+	tr.Emit("dgram", "side", "client", "src", "peer", "anyPort", false, "firstSeen", false,
+		"delivered", delivered, "stats", delivered, "proto", "rtp", "asked", "peer", "nsrc", 1)
 	tr.Emit("end")
 	return nil
 }
